@@ -1320,7 +1320,36 @@ def connected_partitions(cells):
 
 def _fil_gen(rng, big):
     h, w = pick_shape(rng, [(1, 1), (1, 3), (2, 2), (2, 3), (3, 2), (2, 4), (1, 5), (3, 3)], 9 if big else 8)
-    return {"h": h, "w": w, "p": [[rng.choice([0, 0, 0, 1, 2, 3, 4]) for _ in range(w)] for _ in range(h)]}
+    inst = {"h": h, "w": w, "p": [[rng.choice([0, 0, 0, 1, 2, 3, 4]) for _ in range(w)] for _ in range(h)]}
+    if rng.random() < 0.25:
+        inst["checkered"] = True  # the 'checkered fillomino' variant: the blocks can be 2-coloured, edge-adjacent blocks differently
+    return inst
+
+
+def _two_colourable(part):
+    bid = {c: k for k, b in enumerate(part) for c in b}
+    adj = {k: set() for k in range(len(part))}
+    for (y, x), k in bid.items():
+        for d in ((1, 0), (0, 1)):
+            q = (y + d[0], x + d[1])
+            if q in bid and bid[q] != k:
+                adj[k].add(bid[q])
+                adj[bid[q]].add(k)
+    col = {}
+    for s0 in adj:
+        if s0 in col:
+            continue
+        col[s0] = 0
+        st = [s0]
+        while st:
+            u = st.pop()
+            for v in adj[u]:
+                if v not in col:
+                    col[v] = 1 - col[u]
+                    st.append(v)
+                elif col[v] == col[u]:
+                    return False
+    return True
 
 
 def _fil_truth(i):
@@ -1337,6 +1366,8 @@ def _fil_truth(i):
                 q = (y + d[0], x + d[1])
                 if q in bid and bid[q] != bid[(y, x)] and size[q] == size[(y, x)]:
                     ok = False
+        if ok and i.get("checkered") and not _two_colourable(part):
+            ok = False
         if ok:
             sols.append({f"{y},{x}": size[(y, x)] for y, x in allc(h, w)})
     return {"std": sols}
@@ -1345,7 +1376,10 @@ def _fil_truth(i):
 def _fil_solve(i):
     from cspuz.puzzle import fillomino
 
-    is_sat, arr = fillomino.solve_fillomino(i["h"], i["w"], i["p"])
+    if i.get("checkered"):
+        is_sat, arr = fillomino.solve_fillomino(i["h"], i["w"], i["p"], checkered=True)
+    else:
+        is_sat, arr = fillomino.solve_fillomino(i["h"], i["w"], i["p"])
     return is_sat, grid_got(i["h"], i["w"], arr)
 
 
